@@ -7,7 +7,7 @@ use crate::step::*;
 use crate::world::World;
 
 pub const EL_NAMES: &[&str] = &["a", "b", "c", "p:d", "q:e", "f"];
-pub const ATTR_NAMES: &[&str] = &["x", "y", "z", "p:w", "id"];
+pub const ATTR_NAMES: &[&str] = &["x", "y", "z", "p:w", "id", "xml:lang"];
 pub const BAD_NAMES: &[&str] = &["1a", "a b", "a<", "", " ", "a&b", "a x='1'", "x>y", "-a", "a/"];
 pub const ODD_NAMES: &[&str] = &["a:b:c", "zz:a", ":a", "a:"];
 pub const PI_TARGETS: &[&str] = &["t", "u", "pi-x"];
@@ -91,6 +91,7 @@ impl Profile {
             }
             "C15" => {
                 p.name = "data-edit";
+                p.w_proc = 14;
                 p.w_struct = 15;
                 p.w_data = 35;
                 p.w_create = 20;
@@ -429,6 +430,18 @@ fn query_expr(rng: &mut Rng, failing: bool) -> String {
         "normalize-space(/*)",
         "//*[position() < 3]",
         "(//a)[1]/following::*",
+        "//@xml:*",
+        "//@xml:lang",
+        "//*[@xml:lang]",
+        "count(//@xml:*)",
+        "//@p:*",
+        "//p:*",
+        "//q:*",
+        "//*[@p:w]",
+        "//zz:*",
+        "//@zz:x",
+        "string(//@xml:lang)",
+        "//*[lang('en')]",
     ];
     let bad: &[&str] = &[
         "//*[count(1)]",
@@ -469,6 +482,10 @@ pub enum Proc {
     SplitJoin { text: S, tail: Option<S>, stage: usize },
     /// attribute churn on one element
     AttrChurn { el: S, left: usize },
+    /// two text nodes appended one after the other whose data only meet at the node boundary
+    TextPair { el: S, a: String, b: String, node: Option<S>, stage: usize },
+    /// edit the text node inside an attribute value through its CharacterData interface
+    AttrTextEdit { el: S, attr: Option<S>, text: Option<S>, stage: usize },
 }
 
 #[derive(Clone, Debug)]
@@ -560,7 +577,7 @@ impl Gen {
             }
         }
         if markup_ok && self.rng.pct(self.p.markup_pct / 3) {
-            s = self.rng.ps(&["]]>", "--", "?>", "-", "]]", ">", "]", "<!--", "&amp;", "&#60;", "<b/>"]).to_string();
+            s = self.rng.ps(&["]]>", "--", "?>", "-", "]]", ">", "]", "]>", "a]", "]>b", ">b", "a]]", "-a", "a-", "'", "\"", "'\"", "<!--", "&amp;", "&#60;", "<b/>"]).to_string();
         }
         s
     }
@@ -963,7 +980,12 @@ impl Gen {
     fn start_proc(&mut self, w: &World, task: usize) -> Option<Proc> {
         let elements = self.nodes(w, |n| n.kind == Kind::Element);
         let texts = self.nodes(w, |n| n.kind == Kind::Text && n.parent.is_some());
-        match self.rng.below(5) {
+        match self.rng.below(7) {
+            5 => {
+                let (a, b) = *self.rng.pick(&[("a]]", ">b"), ("a]", "]>b"), ("]", "]>"), ("]]", ">"), ("x]", "]"), ("-", "-"), ("a", "b")]);
+                Some(Proc::TextPair { el: self.pick_slot(task, &elements)?, a: a.to_string(), b: b.to_string(), node: None, stage: 0 })
+            }
+            6 => Some(Proc::AttrTextEdit { el: self.pick_slot(task, &elements)?, attr: None, text: None, stage: 0 }),
             0 => Some(Proc::XeReplace { el: self.pick_slot(task, &elements)?, vec: None, idx: 0, len: 0, rebuild: self.rng.range(1, 3), tmp: None }),
             1 => Some(Proc::LiveDelete { el: self.pick_slot(task, &elements)?, list: None, item: None, left: 6, by_index: self.rng.pct(40), idx: 0 }),
             2 => Some(Proc::BuildDetached { root: None, made: 0, target: self.pick_slot(task, &elements)?, last: None }),
@@ -1101,6 +1123,52 @@ impl Gen {
                             (Some(Op::Nav { node: t, which: NavKind::Parent, out }), Some(Proc::SplitJoin { text, tail, stage: 2 }))
                         }
                     }
+                }
+                _ => (None, None),
+            },
+            Proc::TextPair { el, a, b, node, stage } => {
+                let doc = w.model.node_slot(el).map(|m| w.model.nodes[m].doc).unwrap_or(0);
+                match stage {
+                    0 | 2 => {
+                        let out = self.fresh(task);
+                        let data = if stage == 0 { a.clone() } else { b.clone() };
+                        (Some(Op::CreateText { doc, data, out }), Some(Proc::TextPair { el, a, b, node: Some(out), stage: stage + 1 }))
+                    }
+                    1 | 3 => {
+                        let n = node?;
+                        let out = self.fresh(task);
+                        let next = if stage == 1 { Some(Proc::TextPair { el, a, b, node: None, stage: 2 }) } else { None };
+                        (Some(Op::AppendChild { recv: el, new: n, out }), next)
+                    }
+                    _ => (None, None),
+                }
+            }
+            Proc::AttrTextEdit { el, attr, text, stage } => match stage {
+                0 => {
+                    let name = self.rng.ps(&["x", "y", "z"]).to_string();
+                    let value = self.rng.ps(&["v", "a b", "1"]).to_string();
+                    (Some(Op::SetAttribute { el, name: name.clone(), value }), Some(Proc::AttrTextEdit { el, attr: None, text: None, stage: 1 }))
+                }
+                1 => {
+                    let out = self.fresh(task);
+                    let name = self.rng.ps(&["x", "y", "z"]).to_string();
+                    (Some(Op::GetAttrNode { el, name, out }), Some(Proc::AttrTextEdit { el, attr: Some(out), text: None, stage: 2 }))
+                }
+                2 => {
+                    let a = attr?;
+                    w.model.node_slot(a)?;
+                    let out = self.fresh(task);
+                    (Some(Op::Nav { node: a, which: NavKind::First, out }), Some(Proc::AttrTextEdit { el, attr, text: Some(out), stage: 3 }))
+                }
+                3 | 4 => {
+                    let t = text?;
+                    let m = w.model.node_slot(t)?;
+                    if !w.model.nodes[m].kind.is_chardata() {
+                        return None;
+                    }
+                    let data = self.rng.ps(&["'", "\"", "'\"", "\"'", "]]>", ">", "a"]).to_string();
+                    let op = if self.rng.pct(60) { Op::AppendData { node: t, data } } else { Op::InsertData { node: t, off: 0, data } };
+                    (Some(op), if stage == 3 { Some(Proc::AttrTextEdit { el, attr, text, stage: 4 }) } else { None })
                 }
                 _ => (None, None),
             },
